@@ -37,8 +37,9 @@ enum {
 
 static size_t s_advance_and_clamp_index(size_t current_index, int amount, size_t maximum) {
     size_t next_index = current_index + amount;
-    if (next_index > maximum) {
-        next_index = maximum;
+    /* a truncated (v)snprintf leaves its terminator in the last byte it may use: stay on it, do not step over it */
+    if (next_index >= maximum) {
+        next_index = (maximum > 0) ? maximum - 1 : 0;
     }
 
     return next_index;
@@ -177,13 +178,12 @@ int aws_format_standard_log_line(struct aws_logging_standard_formatting_data *fo
     /*
      * End with a newline.
      */
-    int newline_written_count =
-        snprintf(formatting_data->log_line_buffer + current_index, formatting_data->total_length - current_index, "\n");
-    if (newline_written_count < 0) {
-        return aws_raise_error(AWS_ERROR_UNKNOWN); /* we saved space, so this would be crazy */
+    formatting_data->log_line_buffer[current_index] = '\n';
+    if (current_index + 1 < formatting_data->total_length) {
+        formatting_data->log_line_buffer[current_index + 1] = '\0';
     }
 
-    formatting_data->amount_written = current_index + newline_written_count;
+    formatting_data->amount_written = current_index + 1;
 
     return AWS_OP_SUCCESS;
 }
